@@ -197,3 +197,50 @@ eexists. split; [reflexivity|].
 apply (group_output_contains [r1; r2]); cbn [flat_map]; rewrite ?app_nil_r; auto.
 apply in_or_app. now left.
 Qed.
+
+(* --- read groups: the groups of a sample do not depend on the order of the @RG lines *)
+Lemma sample_groups_spec (h : rg_header) (s g : nat) : In g (sample_groups h s) <-> In (g, Some s) h.
+Proof.
+unfold sample_groups. rewrite in_map_iff. split.
+- intros ([g' sm] & <- & Hin). apply filter_In in Hin as [Hin Hs]. cbn [fst snd] in *.
+  destruct sm as [s'|]; [|discriminate]. apply Nat.eqb_eq in Hs. now subst.
+- intros Hin. exists (g, Some s). split; [reflexivity|]. apply filter_In. split; [exact Hin|]. cbn. apply Nat.eqb_refl.
+Qed.
+
+Lemma select_by_rg_spec {A} (gs : list nat) : forall (rgs : list (option nat)) (alns : list A) (a : A),
+  In a (select_by_rg gs rgs alns) <->
+  exists k g, nth_error alns k = Some a /\ nth_error rgs k = Some (Some g) /\ In g gs.
+Proof.
+induction rgs as [|r rgs IH]; intros alns a.
+- cbn. split; [intros []|]. intros (k & g & _ & H & _). destruct k; discriminate.
+- destruct alns as [|b alns].
+  + destruct r; cbn; (split; [intros []|]); intros (k & g & H & _); destruct k; discriminate.
+  + assert (Hshift : (exists k g, nth_error alns k = Some a /\ nth_error rgs k = Some (Some g) /\ In g gs) ->
+                     exists k g, nth_error (b :: alns) k = Some a /\ nth_error (r :: rgs) k = Some (Some g) /\ In g gs).
+    { intros (k & g & H1 & H2 & H3). exists (S k), g. auto. }
+    destruct r as [g0|]; cbn [select_by_rg].
+    * destruct (existsb (Nat.eqb g0) gs) eqn:E.
+      -- cbn [In]. rewrite IH. split.
+         ++ intros [<-|H]; [|auto]. exists 0, g0. repeat split.
+            apply existsb_exists in E as (x & Hx & Ex). apply Nat.eqb_eq in Ex. now subst.
+         ++ intros ([|k] & g & H1 & H2 & H3); [left; cbn in H1; congruence|right; exists k, g; auto].
+      -- rewrite IH. split; [auto|].
+         intros ([|k] & g & H1 & H2 & H3); [|exists k, g; auto].
+         cbn in H2. injection H2 as <-. exfalso.
+         assert (existsb (Nat.eqb g0) gs = true); [|congruence].
+         apply existsb_exists. exists g0. split; [exact H3|apply Nat.eqb_refl].
+    * rewrite IH. split; [auto|]. intros ([|k] & g & H1 & H2 & H3); [cbn in H2; discriminate|exists k, g; auto].
+Qed.
+
+(* fetch(sample = s) delivers exactly the alignments whose RG tag names a read group with SM = s, wherever the @RG
+   lines of the sample stand in the header *)
+Theorem sample_select_spec (h : rg_header) (s : nat) (rgs : list (option nat)) (alns l : list alignment) (a : alignment) :
+  sample_select h (Some s) rgs alns = (Some l, 0) ->
+  (In a l <-> exists k g, nth_error alns k = Some a /\ nth_error rgs k = Some (Some g) /\ In (g, Some s) h).
+Proof.
+unfold sample_select. destruct (sample_groups h s) as [|g0 gs] eqn:Eg; [discriminate|].
+destruct (existsb _ rgs); [discriminate|]. intros H. injection H as <-.
+rewrite select_by_rg_spec. split; intros (k & g & H1 & H2 & H3); exists k, g; repeat split; auto.
+- apply sample_groups_spec. now rewrite Eg.
+- rewrite <- Eg. now apply sample_groups_spec.
+Qed.
